@@ -435,6 +435,8 @@ def random_cfg(rng, tags=False):
         al = []
         for _ in range(rng.choice([0, 0, 1, 2])):
             cand = [x for x in ALIASES if x not in aliases]
+            if not cand:
+                break
             a = rng.choice(cand)
             aliases.add(a)
             al.append(a)
@@ -519,6 +521,38 @@ def random_case(rng, tags=False):
 
 
 # ------------------------------------------------------------------------------------------- the check
+def replay_behaviour(line):
+    """one behaviour emitted by MC_HelpPage -> the same pages and requests on the real code, compared for equality"""
+    rec = T.parse_emit(line)
+    if rec is None:
+        raise T.MachineryError("unreadable behaviour: %s" % line[:200])
+    cfg, width = rec["cfg"], rec["T"]
+    h = zlib.crc32(json.dumps([cfg, width], sort_keys=True).encode())
+    case = {"cfg": cfg, "T": width, "ansi": h % 2 == 0, "pages": [pg["p"] for pg in rec["pages"]],
+            "reqs": [[q["i"], q["j"], (h // 2) % 49, "--help" if (h // 98) % 2 else "-h"] for q in rec["reqs"]], "runA": True}
+    cfg["nl"] = [0, 3][(h // 4) % 2]
+    trace = record(case)
+    same = True
+    nontrivial = 0
+    by_path = {}
+    for pg, ev in zip(rec["pages"], trace[1:]):
+        by_path[json.dumps(pg["p"])] = pg
+        if (ev["obs"]["kind"] == "ok") != pg["ok"] or (pg["ok"] and ev["obs"]["lines"] != pg["lines"]):
+            same = False
+        if pg["ok"] and len(pg["lines"]) > 12:
+            nontrivial += 1
+    for q, ev in zip(rec["reqs"], trace[1 + len(rec["pages"]):]):
+        pg = by_path[json.dumps(q["p"])]
+        if q["ok"] and pg["ok"]:
+            if not (ev["a"]["kind"] == "ok" and ev["b"]["kind"] == "ok" and ev["a"]["lines"] == pg["lines"] == ev["b"]["lines"]):
+                same = False
+        elif ev["a"]["kind"] == "ok" or ev["b"]["kind"] == "ok":
+            same = False
+    keep = (not same) or (h // 1000) % 23 == 0
+    return {"h": h, "same": same, "pages": len(rec["pages"]), "requests": len(rec["reqs"]), "nontrivial": nontrivial,
+            "trace": trace if keep else None, "case": case if keep else None}
+
+
 FAMILIES = {
     "quick": [("main", "MC_HelpPage_quick.cfg"), ("edge", "MC_HelpPage_quick_edge.cfg")],
     "thorough": [("main", "MC_HelpPage_thorough.cfg"), ("edge", "MC_HelpPage_thorough_edge.cfg"),
@@ -554,50 +588,44 @@ def run(ctx):
     ]
     mism, samples = [], []
     counts = {"emitted": 0, "pages": 0, "requests": 0}
+    # the replay of a behaviour is independent of every other one: a few worker processes share the work
+    import multiprocessing
 
-    def handle(rec):
-        counts["emitted"] += 1
-        cfg, width = rec["cfg"], rec["T"]
-        h = zlib.crc32(json.dumps([cfg, width], sort_keys=True).encode())
-        case = {"cfg": cfg, "T": width, "ansi": h % 2 == 0, "pages": [pg["p"] for pg in rec["pages"]],
-                "reqs": [[q["i"], q["j"], (h // 2) % 49, "--help" if (h // 98) % 2 else "-h"] for q in rec["reqs"]], "runA": True}
-        cfg["nl"] = [0, 3][(h // 4) % 2]
-        trace = record(case)
-        same = True
-        by_path = {}
-        for pg, ev in zip(rec["pages"], trace[1:]):
-            by_path[json.dumps(pg["p"])] = pg
-            counts["pages"] += 1
-            if (ev["obs"]["kind"] == "ok") != pg["ok"] or (pg["ok"] and ev["obs"]["lines"] != pg["lines"]):
-                same = False
-            if pg["ok"] and len(pg["lines"]) > 12:
-                ctx.nontrivial_n += 1
-        for q, ev in zip(rec["reqs"], trace[1 + len(rec["pages"]):]):
-            counts["requests"] += 1
-            pg = by_path[json.dumps(q["p"])]
-            if q["ok"] and pg["ok"]:
-                if not (ev["a"]["kind"] == "ok" and ev["b"]["kind"] == "ok" and ev["a"]["lines"] == pg["lines"] == ev["b"]["lines"]):
-                    same = False
-            elif ev["a"]["kind"] == "ok" or ev["b"]["kind"] == "ok":
-                same = False
-        ctx.count(len(rec["pages"]) + len(rec["reqs"]))
-        if not same:
-            mism.append((trace, case))
-        elif len(samples) < 120 and (h // 1000) % 23 == 0:
-            samples.append((trace, case))
+    pool = multiprocessing.get_context("fork").Pool(int(os.environ.get("VERIF_REPLAY_PROCS", "4")))
+    pending = []
 
-    for fam, cfgfile in FAMILIES[ctx.tier]:
-        def sink(line):
-            rec = T.parse_emit(line)
-            if rec is None:
-                return False
-            handle(rec)
-            return True
+    def harvest(block):
+        while pending and (block or pending[0].ready()):
+            r = pending.pop(0).get(3600)
+            counts["pages"] += r["pages"]
+            counts["requests"] += r["requests"]
+            ctx.count(r["pages"] + r["requests"])
+            ctx.nontrivial_n += r["nontrivial"]
+            if not r["same"]:
+                mism.append((r["h"], r["trace"], r["case"]))
+            elif r["trace"] is not None:
+                samples.append((r["h"], r["trace"], r["case"]))
 
-        before = counts["emitted"]
-        ctx.model(SPEC, "MC_HelpPage", cfgfile, name="family-" + fam, workers=8, line_sink=sink)
-        if counts["emitted"] - before < 100:
-            raise T.MachineryError("family %s emitted only %d behaviours" % (fam, counts["emitted"] - before))
+    try:
+        for fam, cfgfile in FAMILIES[ctx.tier]:
+            def sink(line):
+                if not line.startswith('"'):
+                    return False
+                counts["emitted"] += 1
+                pending.append(pool.apply_async(replay_behaviour, (line,)))
+                if len(pending) > 2000:
+                    harvest(False)
+                return True
+
+            before = counts["emitted"]
+            ctx.model(SPEC, "MC_HelpPage", cfgfile, name="family-" + fam, workers=8, line_sink=sink)
+            if counts["emitted"] - before < 100:
+                raise T.MachineryError("family %s emitted only %d behaviours" % (fam, counts["emitted"] - before))
+        harvest(True)
+    finally:
+        pool.terminate()
+    mism = [(t, c) for _h, t, c in sorted(mism, key=lambda x: x[0])]
+    samples = [(t, c) for _h, t, c in sorted(samples, key=lambda x: x[0])][:120]
     ctx.extra["tlc_behaviours_emitted"] = counts["emitted"]
     ctx.extra["pages_replayed"] = counts["pages"]
     ctx.extra["requests_replayed"] = counts["requests"]
